@@ -258,7 +258,7 @@ class H5SliceData(Dataset):
                 max(0, slice_no - self.kspace_context) : min(slice_no + self.kspace_context + 1, num_slices),
             ]
             curr_shape = curr_data.shape
-            if curr_shape[0] < num_slices - 1:
+            if curr_shape[0] < 2 * self.kspace_context + 1:
                 if slice_no - self.kspace_context < 0:
                     new_shape = list(curr_shape).copy()
                     new_shape[0] = self.kspace_context - slice_no
